@@ -14,7 +14,7 @@ from .env import HarnessError
 # ------------------------------------------------------------------ partitions: reachable sum vectors
 
 
-@lru_cache(maxsize=4096)
+@lru_cache(maxsize=48)          # each entry can hold 10^4-10^5 tuples: keep the cache small (memory), it only serves repeated look-ups of one case
 def _sum_vectors(values, k):
     states = {(0,) * k}
     for v in values:
